@@ -273,22 +273,37 @@ def pixel_map(ctx: Ctx, py: PyProgram, rs: RustProgram) -> None:
     ctx.instance("C15.2/python-pixel-map", "visible pixels -> VRAM bit (abstract interpretation of get_display_buffer), bijection + byte/column", 32 * 240, 7680, discharged=n)
     ctx.sample({"pixel(0,0)": str(buffer.get((0, 0))), "pixel(31,239)": str(buffer.get((31, 239))), "pixel(5,120)": str(buffer.get((5, 120)))})
 
-    # region tables
+    # region table of the Python stitcher, read off the abstract pixel map itself (row 0 of every display column): maximal runs of
+    # display columns fed by consecutive (or, mirrored, descending) VRAM columns of one chip/page
     def py_regions() -> list[tuple]:
+        cols = []
+        for c in range(240):
+            v = buffer.get((0, c))
+            if not (isinstance(v, tuple) and v[0] == "px"):
+                cols.append(None)
+                continue
+            _t, chip, page, col = v[1]
+            cols.append((chip, page, col))
         out = []
-        d = py_defs(fn)
-        for c in ast.walk(fn):
-            if isinstance(c, ast.Call) and isinstance(c.func, ast.Name) and c.func.id == "copy_region":
-                kw = {k.arg: k.value for k in c.keywords}
-                chip = 0 if "left" in unparse(kw["chip"]) else 1
-                lv = py_leaves(kw["chip"], d)
-                rng = kw["column_range"]
-                out.append((chip, int(unparse(kw["start_page"])), 0, int(unparse(rng.args[0])), int(unparse(kw["dest_start_col"])),
-                            bool(kw.get("mirror") and unparse(kw["mirror"]) == "True")))
+        i = 0
+        while i < 240:
+            if cols[i] is None:
+                i += 1
+                continue
+            chip, page, col0 = cols[i]
+            j = i + 1
+            step = None
+            while j < 240 and cols[j] is not None and cols[j][0] == chip and cols[j][1] == page:
+                d_ = cols[j][2] - cols[j - 1][2]
+                if d_ not in (1, -1) or (step is not None and d_ != step):
+                    break
+                step = d_
+                j += 1
+            mirror = step == -1
+            lo = min(cols[k][2] for k in range(i, j))
+            out.append((chip, page, lo, lo + (j - i), i, mirror))
+            i = j
         return sorted(out)
-    # chip variable binding: left_chip, right_chip = self.chips[0], self.chips[1]
-    bind = [st for st in fn.body if isinstance(st, ast.Assign) and "self.chips" in unparse(st.value)]
-    ctx.need(bind and unparse(bind[0]).replace(" ", "") == "left_chip,right_chip=(self.chips[0],self.chips[1])", f"chip binding changed: {unparse(bind[0]) if bind else None}")
     pr = py_regions()
     db = rs.fn(LCD_RS, "LcdController::display_buffer")
     d = rs_defs(db.body)
@@ -359,72 +374,10 @@ def column_arith(ctx: Ctx, py: PyProgram, rs: RustProgram) -> None:
     n += 2
     if (Wp, Pp) != (Wr, Pr) or Wp != 64 or Pp != 8:
         ctx.violation("C15.3/geometry", "lcd-geometry", f"chip geometry differs: Python {Wp}x{Pp}, Rust {Wr}x{Pr}", HD_PY)
-    # Python read_data / write_data expressions
-    rd = py.func(HD_PY, "HD61202.read_data")
-    d = py_defs(rd)
-
-    def py_fold(expr: ast.AST, y: int) -> int:
-        ev = PyEval(py, mod)
-        ev.env = {"y": y, "self": Term("HD61202", (), {"LCD_WIDTH_PIXELS": Wp, "LCD_PAGES": Pp, "state": Term("S", (), {"y_address": y, "page": 0})})}
-        return ev.eval(expr)
-    rc = d.get("read_col", [None])[0]
-    ny = d.get("self.state.y_address", [None])[0]
-    ctx.need(isinstance(rc, ast.AST) and isinstance(ny, ast.AST), "HD61202.read_data: read_col / y_address update not found")
-    rsrd = rs.fn(LCD_RS, "Hd61202Chip::read_data")
-    rd_defs = rs_defs(rsrd.body)
-    it = RsInterp(rs, LCD_RS)
-
-    def rs_fold(expr: dict, y: int) -> int:
-        return it.ev(expr, {"y": y, "LCD_WIDTH": Wr})
-    rrc = rd_defs.get("read_col", [None])[0]
-    rny = [a["r"] for a in walk(rsrd.body) if a.get("k") == "assign" and expr_text(a["l"]) == "self.state.y_address"]
-    ctx.need(isinstance(rrc, dict) and len(rny) == 1, "Hd61202Chip::read_data: read_col / y_address update not found")
-    for y in range(64):
-        n += 1
-        a, b = py_fold(rc, y), rs_fold(rrc, y)
-        if a != b or a != (y - 1) % 64:
-            ctx.violation("C15.3/read-col", f"read_data.read_col[y={y}]", f"data read at column {y}: Python returns column {a}, Rust {b}, HD61202 latch is {(y - 1) % 64}", f"{HD_PY} vs {rs.file_for(LCD_RS)}")
-        a2, b2 = py_fold(ny, y), rs_fold(rny[0], y)
-        if a2 != b2 or a2 != (y + 1) % 64:
-            ctx.violation("C15.3/read-advance", f"read_data.next[y={y}]", f"data read at column {y}: next column Python {a2}, Rust {b2}", f"{HD_PY} vs {rs.file_for(LCD_RS)}")
-    # the value returned is vram[page][read_col]
-    ret = [r_ for r_ in ast.walk(rd) if isinstance(r_, ast.Return)]
-    dv = d.get("data", [None])[0]
-    n += 1
-    if not (len(ret) == 1 and unparse(ret[0].value) == "data" and isinstance(dv, ast.AST) and unparse(dv) == "self.vram[page][read_col]"):
-        ctx.violation("C15.3/read-value", key_of(HD_PY, "HD61202.read_data", "return"), "data read does not return vram[page][read_col]", f"{HD_PY}:{rd.lineno}")
-    rv = rd_defs.get("value", [None])[0]
-    n += 1
-    if not (isinstance(rv, dict) and expr_text(rv) == "self.vram[page][read_col]"):
-        ctx.violation("C15.3/read-value", key_of(rs.file_for(LCD_RS), rsrd.qual, "value"), "Rust data read does not return vram[page][read_col]", rsrd.where)
-    # write_data: exactly one VRAM store at [page][y], then y := (y+1) % W
-    wd = py.func(HD_PY, "HD61202.write_data")
-    stores = [s for s in ast.walk(wd) if isinstance(s, ast.Assign) and isinstance(s.targets[0], ast.Subscript) and (attr_chain(s.targets[0].value.value) if isinstance(s.targets[0].value, ast.Subscript) else None) == "self.vram"]
-    n += 1
-    def _idx_ok(st: ast.Assign) -> bool:
-        # self.vram[P][Y] with P derived from state.page and Y from state.y_address (directly or through a local / a fold modulo the size)
-        t = st.targets[0]
-        wd_defs = py_defs(wd)
-        pl = py_leaves(t.value.slice, wd_defs) | {unparse(t.value.slice)}
-        yl = py_leaves(t.slice, wd_defs) | {unparse(t.slice)}
-        return any("state.page" in x for x in pl) and any("state.y_address" in x for x in yl)
-    if not (len(stores) == 1 and _idx_ok(stores[0]) and unparse(stores[0].value) == "data"):
-        ctx.violation("C15.3/write-store", key_of(HD_PY, "HD61202.write_data", "vram store"), f"write_data VRAM stores: {[unparse(s) for s in stores]}; expected exactly one store of the byte at [page][y]", f"{HD_PY}:{wd.lineno}")
-    wny = [s.value for s in ast.walk(wd) if isinstance(s, ast.Assign) and attr_chain(s.targets[0]) == "self.state.y_address"]
-    rswd = rs.fn(LCD_RS, "Hd61202Chip::write_data")
-    rstores = [a for a in walk(rswd.body) if a.get("k") == "assign" and a["l"].get("k") == "index" and expr_text(a["l"]["e"]).startswith("self.vram[")]
-    n += 1
-    if not (len(rstores) == 1 and expr_text(rstores[0]["l"]) == "self.vram[page][y]" and expr_text(rstores[0]["r"]) == "data"):
-        ctx.violation("C15.3/write-store", key_of(rs.file_for(LCD_RS), rswd.qual, "vram store"), f"Rust write_data VRAM stores: {[expr_text(a) for a in rstores]}", rswd.where)
-    rwny = [a["r"] for a in walk(rswd.body) if a.get("k") == "assign" and expr_text(a["l"]) == "self.state.y_address"]
-    ctx.need(len(wny) == 1 and len(rwny) == 1, "write_data: column update not found")
-    wdefs = rs_defs(rswd.body)
-    for y in range(64):
-        n += 1
-        a = py_fold(wny[0], y)
-        b = it.ev(rwny[0], {"LCD_WIDTH": Wr, "self": {"state": {"y_address": y, "page": 0}}})
-        if a != b or a != (y + 1) % 64:
-            ctx.violation("C15.3/write-advance", f"write_data.next[y={y}]", f"data write at column {y}: next column Python {a}, Rust {b}", f"{HD_PY} vs {rs.file_for(LCD_RS)}")
+    # The four chip methods are run by the two interpreters on every (page, column, busy, on) state with symbolic VRAM cells and a
+    # symbolic data byte: what is read, what is stored, the next state and the returned status are compared with the HD61202 law
+    # and with each other.  Nothing here depends on how the methods name their intermediate values.
+    n += chip_methods(ctx, py, rs, Wp, Pp)
     # status byte bits
     st_py = py.func(HD_PY, "HD61202.read_instruction_status")
     consts = sorted({c.value for c in ast.walk(st_py) if isinstance(c, ast.Constant) and isinstance(c.value, int) and c.value > 1})
@@ -704,3 +657,155 @@ def image_renderer(ctx: Ctx, py: PyProgram) -> None:
         ctx.violation("C15.2/image-renderer", key_of(HD_PY, "render_combined_image", "pixel map differs from get_display_buffer"),
                       f"{len(bad)} of {n} panel pixels are driven by a different VRAM bit in the PIL renderer than in get_display_buffer; e.g. pixel (row {row}, col {col}) is {v[1:]} in the buffer but {got[1:] if got else None} in the image", f"{HD_PY}:{rc.lineno}")
     ctx.instance("C15.2/image-renderer", "panel pixels of render_combined_image (abstract image algebra) == get_display_buffer map", n, 7680, discharged=n - len(bad))
+
+
+class _Grid:
+    """VRAM stand-in: grid[p][c] reads as the symbolic cell ("cell", p, c); stores are recorded."""
+    _sa_host = True
+
+    def __init__(self, log: list, tag: str):
+        self.log, self.tag = log, tag
+
+    def __getitem__(self, p: Any) -> Any:
+        grid = self
+
+        class Row:
+            _sa_host = True
+
+            def __getitem__(self, c: Any) -> Any:
+                grid.log.append(("read", grid.tag, int(p), int(c)))
+                return ("cell", int(p), int(c))
+
+            def __setitem__(self, c: Any, v: Any) -> None:
+                grid.log.append(("store", grid.tag, int(p), int(c), v))
+        return Row()
+
+    def __len__(self) -> int:
+        return 8
+
+
+class _HostObj:
+    _sa_host = True
+
+    def __init__(self, **kw: Any):
+        for k, v in kw.items():
+            setattr(self, k, v)
+
+
+def chip_methods(ctx: Ctx, py: PyProgram, rs: RustProgram, W: int, P: int) -> int:
+    from ..pyfacts import _Return
+    from ..rsfacts import _RsReturn
+    mod = py.module(HD_PY)
+    rel = rs.file_for(LCD_RS)
+    consts = {}
+    for st in ast.walk(mod.tree):
+        if isinstance(st, ast.ClassDef) and st.name == "HD61202":
+            for a_ in st.body:
+                if isinstance(a_, ast.Assign) and isinstance(a_.targets[0], ast.Name):
+                    try:
+                        cev = PyEval(py, mod)
+                        cev.env = dict(consts)
+                        v = cev.eval(a_.value)
+                        if isinstance(v, int):
+                            consts[a_.targets[0].id] = v
+                    except NotConst:
+                        pass
+
+    def run_py(qual: str, page: int, y: int, busy: bool, on: bool, args: dict) -> tuple:
+        fn = py.func(HD_PY, qual)
+        log: list = []
+        state = _HostObj(on=on, busy=busy, start_line=0, page=page, y_address=y)
+        me = _HostObj(state=state, vram=_Grid(log, "vram"), vram_pc_source=_Grid(log, "trace"), instruction_count=0, data_write_count=0, data_read_count=0, on_off_count=0, **consts)
+        ev = PyEval(py, mod, budget=[20000])
+        ev.env = {"self": me, **args}
+        ret = None
+        try:
+            try:
+                ev.exec_block(fn.body)
+            except _Return as r:
+                ret = r.v
+        except NotConst as e:
+            raise AnalysisError(f"{qual} left the evaluable fragment: {e}")
+        return ret, (state.page, state.y_address, bool(state.busy), bool(state.on)), [x for x in log if x[1] == "vram"]
+
+    class _It(RsInterp):
+        def mcall_hook(self, recv: Any, m: str, args: list, env: dict, e: dict) -> Any:
+            if m == "wrapping_add" and isinstance(recv, int):
+                return recv + args[0]
+            return NotImplemented
+    it = _It(rs, LCD_RS)
+
+    class _RsGrid(dict):
+        def __init__(self, log: list, tag: str):
+            super().__init__()
+            self.log, self.tag = log, tag
+
+        def __getitem__(self, p: Any) -> Any:
+            g_ = self
+
+            class Row(dict):
+                def __getitem__(self, c: Any) -> Any:
+                    g_.log.append(("read", g_.tag, int(p), int(c)))
+                    return ("cell", int(p), int(c))
+
+                def __setitem__(self, c: Any, v: Any) -> None:
+                    g_.log.append(("store", g_.tag, int(p), int(c), v))
+            return Row()
+
+    def run_rs(qual: str, page: int, y: int, busy: bool, on: bool, args: dict) -> tuple:
+        fn = rs.fn(LCD_RS, qual)
+        log: list = []
+        state = {"__struct__": "Hd61202State", "on": on, "busy": busy, "start_line": 0, "page": page, "y_address": y}
+        me = {"__struct__": "Hd61202Chip", "state": state, "vram": _RsGrid(log, "vram"), "vram_trace": _RsGrid(log, "trace"), "instruction_count": 0, "data_write_count": 0, "data_read_count": 0}
+        env = {"self": me, "LCD_WIDTH": W, "LCD_PAGES": P, **args}
+        try:
+            try:
+                ret = it.block(fn.body, env)
+            except _RsReturn as r:
+                ret = r.v
+        except Exception as e:  # noqa: BLE001
+            raise AnalysisError(f"{qual} (Rust) left the evaluable fragment: {type(e).__name__}: {e}")
+        return ret, (state["page"], state["y_address"], bool(state["busy"]), bool(state["on"])), [x for x in log if x[1] == "vram"]
+
+    n = 0
+    bad: dict = {}
+
+    def report(rule: str, construct: str, msg: str) -> None:
+        if (rule, construct) not in bad:
+            bad[(rule, construct)] = msg
+    for page in range(P):
+        for y in range(W):
+            n += 1
+            # data read: returns the cell of the previous column (the output latch), advances the column, both models
+            pr_ = run_py("HD61202.read_data", page, y, False, True, {})
+            rr_ = run_rs("Hd61202Chip::read_data", page, y, False, True, {})
+            want = (("cell", page, (y - 1) % W), (page, (y + 1) % W))
+            for lang, r_ in (("Python", pr_), ("Rust", rr_)):
+                got = (r_[0], r_[1][:2])
+                if got != want:
+                    report("C15.3/read-col" if got[0] != want[0] else "C15.3/read-advance", f"{lang} read_data", f"data read at page {page} column {y}: {lang} returns {got[0]} and moves to {got[1]}; the HD61202 returns {want[0]} and moves to {want[1]}")
+                if any(x[0] == "store" for x in r_[2]):
+                    report("C15.3/read-value", f"{lang} read_data stores", f"{lang} data read writes VRAM: {r_[2]}")
+            # data write: one store of the byte at (page, column), column advances, BUSY raised
+            pw = run_py("HD61202.write_data", page, y, False, True, {"data": "D", "pc_source": None})
+            rw = run_rs("Hd61202Chip::write_data", page, y, False, True, {"data": "D", "trace": None})
+            for lang, r_ in (("Python", pw), ("Rust", rw)):
+                stores = [x for x in r_[2] if x[0] == "store"]
+                if stores != [("store", "vram", page, y, "D")]:
+                    report("C15.3/write-store", f"{lang} write_data", f"data write at page {page} column {y}: {lang} stores {stores}; expected exactly one store of the byte at ({page}, {y})")
+                if r_[1][:2] != (page, (y + 1) % W):
+                    report("C15.3/write-advance", f"{lang} write_data", f"data write at page {page} column {y}: {lang} moves to {r_[1][:2]}, expected {(page, (y + 1) % W)}")
+                if r_[1][2] is not True:
+                    report("C15.3/busy", f"{lang} write_data", f"{lang} data write at page {page} column {y} leaves BUSY clear")
+    for busy in (False, True):
+        for on in (False, True):
+            n += 1
+            ps = run_py("HD61202.read_instruction_status", 3, 5, busy, on, {})
+            rs_ = run_rs("Hd61202Chip::read_status", 3, 5, busy, on, {})
+            want = (0x80 if busy else 0) | (0 if on else 0x20)
+            for lang, r_ in (("Python", ps), ("Rust", rs_)):
+                if r_[0] != want or r_[1][2] is not False or r_[1][:2] != (3, 5) or r_[1][3] != on:
+                    report("C15.3/status-bits", f"{lang} status read", f"status read with busy={busy} on={on}: {lang} returns {r_[0]!r} and leaves (page, column, busy, on)={r_[1]}; the HD61202 returns {want:#04x}, clears BUSY and changes nothing else")
+    for (rule, construct), msg in bad.items():
+        ctx.violation(rule, key_of(HD_PY if construct.startswith("Python") else rel, construct, rule.split("/")[1]), msg, f"{HD_PY} vs {rel}")
+    return n
